@@ -834,6 +834,15 @@ def boundary_of(prog, body, x, base, facts, depth=0):
             y = b[2][0]
             if y[0] == "call" and y[1] in ("str::trim_start_matches", "str::trim_start") and y[2][0] == base:
                 return "len(base) - len(suffix %s)" % y[1]
+    if x[0] == "int" and x[1] >= 1 and base[0] == "call" and base[1] == "Index::index" and len(base[2]) == 2:
+        # base = S[m..] where m is the offset of a match of a constant char of UTF-8 length x in S
+        kind0, st0, _en0 = range_parts(base[2][1])
+        if kind0 == "from" and st0 is not None:
+            ib0 = index_iter_base(prog, body, st0)
+            if ib0 is not None and ib0[0] == base[2][0] and ib0[1] in ("str::match_indices", "find"):
+                pat = ib0[2][2][1]
+                if pat[0] == "char" and _utf8_len(pat[1]) == x[1]:
+                    return "the suffix starts with the matched U+%04X, whose UTF-8 length is %d" % (pat[1], x[1])
     ib = index_iter_base(prog, body, x)
     if ib is not None:
         if ib[0] == base:
@@ -1312,6 +1321,25 @@ def loop_len_grows(prog, body, lm):
     return None
 
 
+def _suffix_offset(v, root, depth=0):
+    """v is root[a..][b..]...: a lower bound of the total start offset (usize atoms count as 0); None if
+    v is not a chain of open-ended suffix slices of root."""
+    if v == root:
+        return 0
+    if depth > 4 or not (v[0] == "call" and v[1] == "Index::index" and len(v[2]) == 2):
+        return None
+    kind, st_, en_ = range_parts(v[2][1])
+    if kind != "from":
+        return None
+    at_, k_ = split_const(st_)
+    if k_ is None or k_ < 0:
+        return None
+    inner = _suffix_offset(v[2][0], root, depth + 1)
+    if inner is None:
+        return None
+    return inner + k_
+
+
 def loop_string_shrinks(prog, body, lm):
     """Every back edge re-assigns a scanned &str to &s[k+1..] of its previous value."""
     s = sym_of(body)
@@ -1336,12 +1364,8 @@ def loop_string_shrinks(prog, body, lm):
                 continue
             v = prog.simp(v, body)
             n += 1
-            if not (v[0] == "call" and v[1] == "Index::index" and v[2][0] == phi):
-                ok = False
-                break
-            kind, st_, en_ = range_parts(v[2][1])
-            at_, k_ = split_const(st_) if kind == "from" else (None, None)
-            if kind != "from" or k_ is None or k_ < 1:
+            off = _suffix_offset(v, phi)
+            if off is None or off < 1:
                 ok = False
                 break
         if ok and n > 0:
